@@ -3,7 +3,7 @@ TECHNIQUE = ('Rocq (Coq 8.16) theorems on a hand-written executable model + diff
              '+ the integer kernel and the constants of the package translated from the Go source on every run and proved equal to the model (coq/theories/Tie)')
 HOOK_COMMITS = ['836edf2']
 NOTES = ('Every check: (1) audits and builds the Coq development and re-checks Props/<ID>.v with Print Assumptions; '
-         '(1b) for C01-C04, C06, C07, C15, C19, C20: harness/cmd/wtgo2coq translates the integer kernel of package whispertool (floorMod, Timestamp.Add/Sub/Truncate, ArchiveInfo.MaxRetention/pointIndex/pointOffsetAt/interval/intervalForWrite, Header.Size, Header.ExpectedFileSize, ArchiveInfo.validate and ArchiveInfoList.validate with their loops) '
+         '(1b) for C01-C04, C06, C07, C15, C19, C20: harness/cmd/wtgo2coq translates the integer kernel of package whispertool (floorMod, Timestamp.Add/Sub/Truncate, ArchiveInfo.MaxRetention/pointIndex/pointOffsetAt/interval/intervalForWrite, Header.Size, Header.ExpectedFileSize, ArchiveInfo.validate, ArchiveInfoList.validate and ArchiveInfoList.fillOffset with their loops) '
          'and its integer constants from /repo\'s working tree into coq/theories/Gen/GoKernel.v, and coq/theories/Tie/tie_*.v re-prove that the model functions equal the translation for all inputs (DESIGN.md 11.7); '
          '(2) rebuilds the Go driver from /repo\'s working tree and compares the real code with the extracted model on generated cases. '
          'A mismatch on an observable the property constrains is reported as VIOLATION with the shrunk case as replay; '
